@@ -48,6 +48,8 @@ pub(in super::super) struct BlockReader<'r, 's, R> {
 	/// Represents whether we were hinted deserialize_ignored_any. If yes, we
 	/// can use the block length to skip the block.
 	ignored: bool,
+	/// Whether we have read the zero-length block that terminates the array/map
+	finished: bool,
 }
 impl<'r, 's, R> BlockReader<'r, 's, R> {
 	pub(in super::super) fn new(
@@ -61,17 +63,24 @@ impl<'r, 's, R> BlockReader<'r, 's, R> {
 			n_read: 0,
 			allowed_depth,
 			ignored: hinted_ignored,
+			finished: false,
 		}
 	}
 	fn has_more<'de>(&mut self) -> Result<bool, DeError>
 	where
 		R: ReadSlice<'de>,
 	{
+		if self.finished {
+			return Ok(false);
+		}
 		self.current_block_len = match self.current_block_len.checked_sub(1) {
 			None => {
 				let new_len = read_block_len(self.reader, self.ignored)?;
 				match new_len {
-					None => return Ok(false),
+					None => {
+						self.finished = true;
+						return Ok(false);
+					}
 					Some(new_len) => {
 						let l = new_len.get();
 						let n_read = self.n_read.saturating_add(l);
@@ -89,11 +98,44 @@ impl<'r, 's, R> BlockReader<'r, 's, R> {
 		};
 		Ok(true)
 	}
+
+	/// To be called once the visitor is done: makes sure that the array/map has
+	/// been read up to and including the zero-length block that terminates it.
+	///
+	/// Visitors of fixed-length sequences (tuples, `[T; N]`, tuple structs...)
+	/// stop asking for elements once they have what they need, so otherwise
+	/// the terminator would be left in the reader and be decoded as part of
+	/// whatever follows.
+	fn end<'de>(&mut self) -> Result<(), DeError>
+	where
+		R: ReadSlice<'de>,
+	{
+		if self.has_more()? {
+			Err(DeError::new(
+				"The array or map holds more elements than the type it is deserialized into expects",
+			))
+		} else {
+			Ok(())
+		}
+	}
 }
 
 pub(in super::super) struct ArraySeqAccess<'r, 's, R> {
 	pub(in super::super) block_reader: BlockReader<'r, 's, R>,
 	pub(in super::super) elements_schema: &'s SchemaNode<'s>,
+}
+impl<'r, 's, R> ArraySeqAccess<'r, 's, R> {
+	/// Hand the array over to the visitor, then make sure that it was consumed
+	/// entirely
+	pub(in super::super) fn visit<'de, V>(mut self, visitor: V) -> Result<V::Value, DeError>
+	where
+		V: Visitor<'de>,
+		R: ReadSlice<'de>,
+	{
+		let value = visitor.visit_seq(&mut self)?;
+		self.block_reader.end()?;
+		Ok(value)
+	}
 }
 impl<'de, R: ReadSlice<'de>> SeqAccess<'de> for ArraySeqAccess<'_, '_, R> {
 	type Error = DeError;
@@ -116,6 +158,19 @@ impl<'de, R: ReadSlice<'de>> SeqAccess<'de> for ArraySeqAccess<'_, '_, R> {
 pub(in super::super) struct MapMapAccess<'r, 's, R> {
 	pub(in super::super) block_reader: BlockReader<'r, 's, R>,
 	pub(in super::super) elements_schema: &'s SchemaNode<'s>,
+}
+impl<'r, 's, R> MapMapAccess<'r, 's, R> {
+	/// Hand the map over to the visitor, then make sure that it was consumed
+	/// entirely
+	pub(in super::super) fn visit<'de, V>(mut self, visitor: V) -> Result<V::Value, DeError>
+	where
+		V: Visitor<'de>,
+		R: ReadSlice<'de>,
+	{
+		let value = visitor.visit_map(&mut self)?;
+		self.block_reader.end()?;
+		Ok(value)
+	}
 }
 impl<'de, R: ReadSlice<'de>> MapAccess<'de> for MapMapAccess<'_, '_, R> {
 	type Error = DeError;
